@@ -2,7 +2,8 @@
    number of threads, every per-thread script of API operations and every scheduler.
    Statements only; proofs are in SlabConc/{SkeletonSound,ConcProofs,ConcInst,AllocProofs}.v. *)
 From Coq Require Import List String Bool Arith.
-From FV Require Import SlabConc.Skeleton SlabConc.SkeletonSound SlabConc.ConcModel SlabConc.ConcProofs SlabConc.ConcInst.
+From FV Require Import SlabConc.Skeleton SlabConc.SkeletonSound SlabConc.SmallStepSound SlabConc.Shapes SlabConc.ShapesSound.
+From FV Require Import SlabConc.ConcModel SlabConc.ConcProofs SlabConc.ConcInst SlabConc.AllocModel SlabConc.AllocProofs.
 From FV Require Import Gen.SlabSkeleton.
 Import ListNotations.
 Open Scope string_scope.
@@ -28,6 +29,14 @@ Theorem skeleton_checker_sound :
 Proof. exact check_skeleton_sound. Qed.
 Print Assumptions skeleton_checker_sound.
 
+(* the same for the small-step semantics: every PARTIAL execution (stack of frames, one construct at a time) of a
+   checked API function is accepted by the monitor at every event *)
+Theorem skeleton_checker_sound_small_step :
+  forall fs, check_skeleton fs = true ->
+  forall f b t c', In f api -> lookup fs f = Some b -> ssteps fs [[b]] t c' -> disciplined s0 t.
+Proof. exact check_skeleton_sound_small_step. Qed.
+Print Assumptions skeleton_checker_sound_small_step.
+
 Example skeleton_checker_sound_nonvacuous :
   api_trace actual "allocate" tr_alloc_slow /\ In (EPolicy "map") tr_alloc_slow /\
   In (ELock "allocate.bucket_guard" MB) tr_alloc_slow /\ In (ELock "allocate.tree_guard" MT) tr_alloc_slow /\
@@ -39,6 +48,22 @@ Proof.
   split; [vm_compute; tauto|]. split; [vm_compute; tauto|]. split; [vm_compute; tauto|].
   split; [eapply follow_api_trace; exact Hf|]. vm_compute; tauto.
 Qed.
+
+(* ---- the matcher of the model-vs-implementation tie: every word of [shapes actual f] (the set against which the
+        harness's per-call lock/unlock/callback logs are compared) is the observation of a genuine path-trace ---- *)
+Theorem skeleton_shapes_are_path_traces :
+  forall f w, In w (shapes actual f) ->
+    exists tr, api_trace actual f tr /\ rev (fst (obs_run ([], None) tr)) = w.
+Proof. exact (shapes_sound actual). Qed.
+Print Assumptions skeleton_shapes_are_path_traces.
+
+Example skeleton_shapes_nonvacuous :
+  In ["LB"; "UB"; "P:map"; "LT"; "UT"; "LB"; "UB"] (shapes actual "allocate") /\
+  In ["LB"; "UB"; "P:map"] (shapes actual "allocate") /\
+  In ["LT"; "UT"; "P:unmap"] (shapes actual "free") /\
+  ~ In ["LB"; "P:map"; "UB"] (shapes actual "allocate") /\
+  rev (fst (obs_run ([], None) tr_alloc_slow)) = ["LB"; "UB"; "P:map"; "LT"; "UT"; "LB"; "UB"].
+Proof. vm_compute. repeat split; try tauto. intro H. repeat (destruct H as [H|H]; [discriminate H|]). exact H. Qed.
 
 (* ---- C05_lock_discipline, instantiated with the generated skeleton:
         on every path (early `return nullptr` paths included) of every API function, at every event:
@@ -148,3 +173,90 @@ Proof.
     + exists []. split; [constructor|reflexivity].
   - vm_compute. repeat split; try (eexists; reflexivity); try discriminate; tauto.
 Qed.
+
+(* ---- the data layer: the abstract allocator of SlabConc/AllocModel.v (per-bucket free lists, private slabs
+        under construction, owned blocks, the page counter; every read-modify-write of lock-protected state split
+        into a read and a later write; paths chosen at run time by the data), for every number of threads, every
+        per-thread script of allocate/free operations (frees of blocks allocated by other threads included: the
+        precondition is only that the caller owns the block when it frees it), every scheduler ---- *)
+
+(* obligation: the lock shapes of the data model's pc paths are path shapes of the generated skeleton *)
+Theorem skeleton_matches_model :
+  forallb (fun x : string * list pcs =>
+             existsb (fun w => if list_eq_dec string_dec w (shape_of_path (snd x)) then true else false)
+                     (shapes Gen.SlabSkeleton.actual (fst x))) model_paths = true.
+Proof. vm_compute. reflexivity. Qed.
+Print Assumptions skeleton_matches_model.
+
+(* C05_invariant_all_interleavings, consequence 1: no block is handed out twice.  A block owned by a thread is
+   owned once, by nobody else, is not the object any other in-flight operation is about to return or push, is not
+   part of a slab under construction, and is not in any bucket's free list. *)
+Theorem C05_no_double_handout :
+  forall scripts sched t b, let s := arun sched (ainit scripts) in
+    In b (mine (thr s t)) ->
+    NoDup (mine (thr s t)) /\
+    (forall t', t' <> t -> ~ In b (mine (thr s t')) /\ cur (thr s t') <> Some b /\ ~ In b (slab (thr s t'))) /\
+    (forall i, ~ In b (avail s i)).
+Proof. intros scripts sched t b s. exact (no_double_handout s (AInv_reachable scripts sched) t b). Qed.
+Print Assumptions C05_no_double_handout.
+
+(* consequence 2: the free lists stay well formed in every interleaving, and while a thread holds a bucket lock
+   between its read and its write the snapshot it read is still the bucket's current content; the mutex state
+   always agrees with the pcs (so at most one thread is inside a critical section of a lock) *)
+Theorem C05_free_lists_consistent :
+  forall scripts sched, let s := arun sched (ainit scripts) in
+    (forall i, NoDup (avail s i) /\ (forall b, In b (avail s i) -> fst b = i) /\
+               (forall b j, In b (avail s i) -> In b (avail s j) -> i = j) /\
+               (forall b t, In b (avail s i) -> ~ In b (hb (thr s t)))) /\
+    (forall t i, pc (thr s t) = A2 i \/ pc (thr s t) = S9 i \/ pc (thr s t) = F3 i -> snap (thr s t) = avail s i) /\
+    (forall t l, aowner s l = Some t <-> lock_of_pc (pc (thr s t)) = Some l).
+Proof.
+  intros scripts sched s. pose proof (AInv_reachable scripts sched) as HI.
+  split; [exact (free_objects_consistent s HI)|]. split; [exact (snapshot_current s HI)|exact (lock_state_matches_pc s HI)].
+Qed.
+Print Assumptions C05_free_lists_consistent.
+
+(* C05_linearizable_partial: the commit log (one entry per completed allocate, appended at its return step, one
+   per free, appended at its first step; commit_points) is a legal history of the abstract allocator -- every
+   allocation hands out a block that is not live at that point of the history, every free releases a live one --
+   the blocks live according to the history are exactly the blocks owned by the threads, and the page counter
+   equals the number of accounting updates performed (no lost update).
+   FULL STATEMENT NOT PROVED ("behaves like some sequential order of those calls" for the CONCRETE pool of C01):
+   what is abstracted is (1) the per-slab structure of a bucket's free objects, the partial tree's order and the
+   choice of head_slb -- avail i is the union of the slabs' lists; (2) addresses, sizes, frame headers,
+   poisoning and large blocks; (3) Policy::map returns fresh names.  As DESIGN.md says, the sequential order is
+   with respect to the abstract allocator: two threads that find a class empty both map a slab, which no
+   sequential run of the deterministic pool does. *)
+Theorem C05_linearizable_partial :
+  forall scripts sched, let s := arun sched (ainit scripts) in
+    legal (hist s) /\
+    (forall b, In b (live (hist s)) <-> exists t, In b (mine (thr s t))) /\
+    used s = acc s /\
+    (forall t, hist (astep s t) = hist s \/
+               exists e, hist (astep s t) = e :: hist s /\ (pc (thr s t) = ARet \/ pc (thr s t) = Idle)).
+Proof.
+  intros scripts sched s. pose proof (AInv_reachable scripts sched) as HI.
+  destruct (history_legal s HI) as [H1 H2]. split; [exact H1|]. split; [exact H2|]. split; [exact (no_lost_update s HI)|].
+  intro t. exact (commit_points s t).
+Qed.
+Print Assumptions C05_linearizable_partial.
+
+(* every step of the data model is a micro-op that the lock discipline allows in the lock state of its pc *)
+Theorem C05_data_model_disciplined :
+  forall p m, mop_of_pc p = Some m -> mstep (lock_of_pc p) m <> None.
+Proof. exact data_steps_disciplined. Qed.
+Print Assumptions C05_data_model_disciplined.
+
+(* Non-vacuity: thread 0 maps a slab of three objects of class 3 and keeps one; then threads 1 and 2 interleave
+   step by step.  With the mutex semantics they end up with different blocks and the history is
+   [alloc (3,0); alloc (3,1); alloc (3,2)].  With a lock() that excludes nobody (astep_nolock) the SAME schedule
+   hands block (3,1) to both threads: the model can express the failure, the theorem excludes it. *)
+Example C05_no_double_handout_nonvacuous :
+  let s1 := arun ex_first (ainit ex_scripts) in
+  avail s1 3 = [(3, 1); (3, 2)] /\ mine (thr s1 0) = [(3, 0)] /\ used s1 = 1 /\
+  let s_locked := arun (ex_racy ++ [2; 2; 2; 2; 2; 2]) s1 in
+  mine (thr s_locked 1) = [(3, 1)] /\ mine (thr s_locked 2) = [(3, 2)] /\
+  hist s_locked = [HAlloc 2 (3, 2); HAlloc 1 (3, 1); HAlloc 0 (3, 0)] /\
+  let s_racy := fold_left astep_nolock ex_racy s1 in
+  mine (thr s_racy 1) = [(3, 1)] /\ mine (thr s_racy 2) = [(3, 1)].
+Proof. vm_compute. repeat split; reflexivity. Qed.
